@@ -468,6 +468,41 @@ fn svg_arc_case<S: Fl>(cx: &mut Cx, rng: &mut Rng) {
     let rot = if rng.chance(1, 3) { 0.0 } else { rng.range(-6, 6) as f64 * 0.25 };
     let (large, sweep) = (rng.chance(1, 2), rng.chance(1, 2));
     let tol = *rng.pick(&[0.5, 0.1, 0.01]);
+    // a zero radius: the SVG rules make the arc the straight segment from -> to (one segment, parameters 0..1)
+    if rng.chance(1, 12) {
+        if rng.chance(1, 2) {
+            rx = 0.0;
+        } else {
+            ry = 0.0;
+        }
+        let sa = SvgArc {
+            from: point(S::of(from.0), S::of(from.1)),
+            to: point(S::of(to.0), S::of(to.1)),
+            radii: lyon_geom::vector(S::of(rx), S::of(ry)),
+            x_rotation: lyon_geom::Angle::radians(S::of(rot)),
+            flags: ArcFlags { large_arc: large, sweep },
+        };
+        let label = format!("{:?} tol {} ({} bits)", sa, tol, S::bits());
+        cx.st.inc("evaluations");
+        cx.st.inc("svg_arc_zero_radius");
+        cx.st.note_case(&label, true);
+        let r = catch(AssertUnwindSafe(|| {
+            let mut a: Vec<(Point<S>, Point<S>)> = Vec::new();
+            sa.for_each_flattened(S::of(tol), &mut |l: &LineSegment<S>| a.push((l.from, l.to)));
+            let mut b: Vec<(Point<S>, Point<S>, S, S)> = Vec::new();
+            sa.for_each_flattened_with_t(S::of(tol), &mut |l: &LineSegment<S>, t: std::ops::Range<S>| b.push((l.from, l.to, t.start, t.end)));
+            (a, b)
+        }));
+        match r {
+            None => fail(cx, "SvgArc flattening with a zero radius panicked", label, None),
+            Some((a, b)) => {
+                if a != vec![(sa.from, sa.to)] || b != vec![(sa.from, sa.to, S::ZERO, S::ONE)] {
+                    fail(cx, "an SvgArc with a zero radius is not flattened to the single segment from -> to over 0..1", label, None);
+                }
+            }
+        }
+        return;
+    }
     let sa = SvgArc {
         from: point(S::of(from.0), S::of(from.1)),
         to: point(S::of(to.0), S::of(to.1)),
